@@ -89,6 +89,7 @@ class Ctx:
         self.violations = []      # unlisted
         self.known_hits = {}      # signature -> count
         self.drift = []
+        self.observations = []    # API outside the listed properties that disagrees with its TLA+ definition (advisory)
         self.notes = []
         self.cov = {"evaluations": 0, "distinct_nontrivial": 0, "samples": [], "states": 0,
                     "transitions": 0, "traces_validated_against_impl": 0}
@@ -271,6 +272,8 @@ class Ctx:
             out("MODEL-DRIFT: property=%s %s" % (self.pid, d[:300]))
         if len(self.drift) > 5:
             out("MODEL-DRIFT: property=%s ... %d more" % (self.pid, len(self.drift) - 5))
+        for d in self.observations[:8]:
+            out("OBSERVATION: property=%s %s" % (self.pid, d[:300]))
         for sig, what, path in self.violations[:15]:
             out("VIOLATION property=%s replay=%s" % (self.pid, path))
             out("  signature: %s" % sig)
@@ -284,6 +287,7 @@ class Ctx:
         cov["trusted_base"] = trusted or []
         cov["known_findings_hit"] = sorted(self.known_hits)
         cov["model_drift"] = self.drift[:20]
+        cov["observations"] = self.observations[:20]
         cov["notes"] = self.notes
         if extra_cov:
             cov.update(extra_cov)
